@@ -96,7 +96,7 @@ def step (ws : List String) : String :=
   | "target" :: mbh :: mtot :: f :: rest =>
     let (r, d) := targetEjectRev (pairs (rest.map parseHex)) (parseHex mbh) (parseHex mtot) (parseHex f)
     s!"ok {d} {pairsOut r}"
-  | "roweject" :: ret :: nmin :: rest =>
+  | "roweject" :: ret :: nmin :: centre0 :: rest =>
     -- rest = <nbins> M N ... then per-bin retention list (length-prefixed; empty = no kicks)
     let (flat, r1) := takeList rest
     let (rets, _) := takeList r1
@@ -106,7 +106,7 @@ def step (ws : List String) : String :=
       | some p => p.2
       | none => 1.0
     let kicks := if rets.isEmpty then none else some (unboundKicks fret)
-    match rowEject kicks (parseHex ret) (parseHex nmin) bins with
+    match rowEject kicks (parseHex ret) (parseHex nmin) (parseHex centre0) bins with
     | .ok (r, d) => s!"ok {d} {pairsOut r}"
     | .error .kicksOverBudget => "err kicksOverBudget"
     | .error _ => "err overEject"
